@@ -137,6 +137,7 @@ func (u *Unit) execInstr(fr *Frame, in ssa.Instruction, st *State, reach *Term) 
 	case *ssa.Range:
 		x := u.value(fr, i.X)
 		fr.vals[i] = Val{T: u.termOf(x), Typ: i.X.Type()}
+		u.initRange(st, i)
 	case *ssa.Next:
 		fr.vals[i] = u.execNext(fr, i, st, *reach)
 	case *ssa.Call:
@@ -668,9 +669,8 @@ func (u *Unit) execNext(fr *Frame, i *ssa.Next, st *State, reach Term) Val {
 	}
 	mt := rng.X.Type().Underlying().(*types.Map)
 	m := u.value(fr, rng)
-	_, dh, _, vh := u.mapHeaps(st, mt)
-	k := u.freshVal(st, "rangekey", mt.Key())
-	u.assume(tTrue, implies(ok, and(not(eq(m.T, intLit(0))), sel(sel(dh, m.T), k.T))))
+	_, _, _, vh := u.mapHeaps(st, mt)
+	ok, k := u.nextMapKey(st, rng, m.T, mt)
 	v := Val{T: u.def(sel(sel(vh, m.T), k.T)), Typ: mt.Elem()}
 	u.assume(tTrue, u.typeInv(st, v.T, mt.Elem()))
 	u.note("range over a map visits keys in an arbitrary order (each step yields some key of the map)")
